@@ -24,6 +24,9 @@ def is_now_seconds(t):
     """term is exactly 'seconds since the epoch, now' (no offset, no scaling); returns (ok, reason)"""
     t = norm(t)
     for s in subterms(t):
+        if s[0] == "bin":
+            return False, "arithmetic %s on the timestamp" % s[1]
+    for s in subterms(t):
         k = s[0]
         if k == "call":
             if s[1] not in NOW_OK_CALLS:
